@@ -276,7 +276,7 @@ Theorem C11_reference_assignment_and_swap_after_every_history : forall L cap bud
   wf_plist L = true -> has_varying L = false -> 0 <= cap -> Forall (fun c => 0 <= c) fixed ->
   let v0 := fst (mkvec L cap budget fixed aid junk bid tbid) in
   let s0 := {| s_cap := cap; s_elems := [] |} in
-  shist_valid L (fixed_counts L fixed) s0 h -> nt_hist_ok L s0 h ->
+  shist_valid L (fixed_counts L fixed) s0 h -> nt_hist_okx L s0 h ->
   let v := vrun L junk v0 h in
   let l := s_elems (srun s0 h) in
   forall i j, (i < length l)%nat -> (j < length l)%nat -> i <> j ->
@@ -359,12 +359,12 @@ Definition c11H : list sop :=
 Example C11_history_level_applies :
   wf_plist c11L = true /\ has_varying c11L = false /\
   shist_valid c11L (fixed_counts c11L [2]) {| s_cap := 3; s_elems := [] |} c11H /\
-  nt_hist_ok c11L {| s_cap := 3; s_elems := [] |} c11H /\
+  nt_hist_okx c11L {| s_cap := 3; s_elems := [] |} c11H /\
   s_elems (srun {| s_cap := 3; s_elems := [] |} c11H) = [c11t 1; c11t 3; c11t 4].
 Proof.
   split; [reflexivity|]. split; [reflexivity|]. split; [|split].
   - cbn. repeat split; try lia; try discriminate; repeat constructor.
-  - cbn. unfold nt_ok. cbn. repeat split; try (right; lia); auto.
+  - apply nt_hist_okx_fixed. reflexivity.
   - reflexivity.
 Qed.
 
